@@ -78,6 +78,12 @@ def run(ctx: Ctx) -> Report:
     tasks += [(PROPERTY, i, fs, ctx.seed, ctx.pick(12, 32), 24, SALT, "overptr") for i in range(fs)]
     ps = 16
     tasks += [(PROPERTY, i, ps, ctx.seed, ctx.pick(3, 6), 24, SALT, "pagecross") for i in range(ps)]
+    # Round 5.  The power state at instruction entry (the core was stopped by a HALT / OFF executed earlier on the same
+    # emulator, or the halted state was restored from outside) and what the host does inside the memory callbacks (a
+    # second emulator executes an instruction there): every (prefix, opcode) pair, `count` cases per pair
+    hs = 16
+    tasks += [(PROPERTY, i, hs, ctx.seed, ctx.pick(1, 4), 24, SALT, "halted") for i in range(hs)]
+    tasks += [(PROPERTY, i, hs, ctx.seed, ctx.pick(2, 6), 24, SALT, "coexec") for i in range(hs)]
     K.GN.warm()
     rep = ctx.merge_reports(ctx.pmap(K.explore_shard, tasks))
     rep.rule = RULE + ROUND4_RULE
